@@ -153,6 +153,11 @@ def binUpdate (f : α → α → α) (st : BinSt α) (sl sr : ASig α) : Except 
     | none => st.lastOut
   pure ({ buf1 := left, buf2 := right, lastOut := lastOut }, result)
 
+/-- `MultiplicationOperation.update` sets `self.last_output = []` at every call (the other ten classes do it in `__init__`
+    only): the test against `last_output` never fires and the sample at the last time stamp is returned again. -/
+def binUpdateNL (f : α → α → α) (st : BinSt α) (sl sr : ASig α) : Except PyErr (BinSt α × ASig α) :=
+  binUpdate f { st with lastOut := none } sl sr
+
 /-! ### unbounded once / historically -/
 
 def scanUpdate (comb : α → α → α) (prev : α) : ASig α → α × ASig α
@@ -275,6 +280,7 @@ def timedUpdate (worse : α → α → Bool) (neutral : α) (begin_ end_ : Rat) 
 
 inductive OnSt (α : Type)
   | leaf
+  | cst (sent : Bool)      -- a constant node: has its signal been handed over (`constants_sent` of the update visitor)
   | un (c : OnSt α)
   | scan (prev : α) (c : OnSt α)
   | bin (st : BinSt α) (l r : OnSt α)
@@ -285,7 +291,7 @@ inductive OnSt (α : Type)
 /-- The construction visitor (`visitX` of `StlDenseTimeOnlineAstVisitor`): which operation object for which node. -/
 def initOn : F α → Except PyErr (OnSt α)
   | .var _ => .ok .leaf
-  | .const _ => .ok .leaf
+  | .const _ => .ok (.cst false)
   | .un _ φ => do pure (.un (← initOn φ))
   | .bin op φ ψ => do
       match op with
@@ -312,7 +318,7 @@ def initOn : F α → Except PyErr (OnSt α)
 /-- One `update()`: the batch of every variable (a variable without new samples has `[]`). -/
 def stepOn (cfg : DCfg) (inp : String → ASig α) : F α → OnSt α → Except PyErr (OnSt α × ASig α)
   | .var x, .leaf => .ok (.leaf, inp x)
-  | .const c, .leaf => .ok (.leaf, [(Tm.zero, c), (.inf, c)])
+  | .const c, .cst sent => .ok (.cst true, if sent then [] else [(Tm.zero, c), (.inf, c)])
   | .un op φ, .un c => do
       let (c', s) ← stepOn cfg inp φ c
       -- the online `LnOperation` has no sign test of its own (`math.log` raises); `SqrtOperation` has
@@ -325,6 +331,9 @@ def stepOn (cfg : DCfg) (inp : String → ASig α) : F α → OnSt α → Except
       | .pred c =>
           let (st', d) ← binUpdate (fun a b => Val.sub a b) st sl sr
           pure (.bin st' l' r', d.map (fun p => (p.1, cmpOfDiff c p.2)))
+      | .mul =>
+          let (st', o) ← binUpdateNL op.app st sl sr
+          pure (.bin st' l' r', o)
       | _ =>
           let (st', o) ← binUpdate op.app st sl sr
           pure (.bin st' l' r', o)
